@@ -110,7 +110,7 @@ fn operand_texts(k: PKind, full: bool) -> Vec<String> {
         PKind::Cc => vec!["b".into(), "w".into(), "q".into()],
         PKind::Src => vec!["#5".into(), "k + 1".into(), "a".into(), "300".into(), "(r1)".into(), "#k".into(), "5".into(), "#300".into(), "(r2)".into(), "A".into(), "#B".into(), "(a)".into()],
         PKind::Untyped => {
-            let mut v: Vec<String> = vec!["5".into(), "0x1234".into(), "-1".into(), "(1 + 1)".into(), "A".into(), "B".into(), "k".into(), "undef".into(), "a".into(), "$".into()];
+            let mut v: Vec<String> = vec!["5".into(), "0x1234".into(), "-1".into(), "(1 + 1)".into(), "{ 0, 1 + 1 }".into(), "A".into(), "B".into(), "k".into(), "undef".into(), "a".into(), "$".into()];
             if full {
                 v.extend(["A + 1".to_string(), "B - A".to_string(), "0x1_00".to_string(), "r1".to_string()]);
             }
@@ -125,6 +125,8 @@ fn operand_texts(k: PKind, full: bool) -> Vec<String> {
             }
             let _ = ty;
             let mut v: Vec<String> = vals.iter().map(|x| x.to_string()).collect();
+            // a block operand holding the characters other patterns use as separators
+            v.insert(4, "{ 0, 1 + 1 }".to_string());
             v.extend(["0x0f".to_string(), "(1 + 1)".to_string(), "A".to_string(), "B".to_string(), "k".to_string(), "undef".to_string(), "a".to_string()]);
             v
         }
